@@ -5,7 +5,9 @@ package checks
 import (
 	"fmt"
 	"math/big"
+	"strconv"
 	"strings"
+	"time"
 
 	"github.com/vipnode/vipnode/v2/internal/verif/vh"
 	"github.com/vipnode/vipnode/v2/internal/verif/vsched"
@@ -307,6 +309,196 @@ func c07RaceAccrual(driver string, cfg c07Cfg, bound int) vh.Unit {
 	}}
 }
 
+// (3) the whole payment stack as the binary wires it, on a simulated chain with the real contract:
+// PaymentService -> ContractPayment (cache, contract reads, Balance events, OpSettle) -> VipnodePool.
+// "Pays" is what the wallet receives on chain; "owed" is contract deposit + ledger credit - fee.
+type c07ChainModel struct {
+	deposit, credit map[string]int64
+	locked, cached  map[string]bool
+	contract        int64 // ether held by the contract
+}
+
+func c07Chain(cfg c07Cfg, depth, shard, nshards int) vh.Unit {
+	name := fmt.Sprintf("payout-on-chain/min%s-fee%s/d%d/%d", cfg.min, cfg.fee, depth, shard)
+	cast := vh.StdCast()
+	type world struct {
+		cw   *vh.ChainWorld
+		m    *c07ChainModel
+		bad  string
+		open bool // a withdrawal whose payout would be negative happened: branch left, not judged
+	}
+	var min, fee *big.Int
+	var minI, feeI int64
+	if cfg.min != "off" {
+		min = big10(cfg.min)
+		minI = min.Int64()
+	}
+	if cfg.fee != "none" {
+		fee = big10(cfg.fee)
+		feeI = fee.Int64()
+	}
+	evs := []string{"dep W1 600", "dep W2 5000", "credit W1 900", "credit W1 -300", "lock W1", "drain", "restart", "withdraw W1", "withdraw W2"}
+	return vh.Unit{Name: name, Run: func(u *vh.U) {
+		vsched.SetVirtualClock(false)
+		vh.RunBFS(u, vh.BFSSpec{
+			Name: name, MaxDepth: depth, Shard: shard, NShards: nshards,
+			New: func() interface{} {
+				cw, err := vh.NewChainWorld(vh.NewStore(vh.Memory), min, fee, cast.ByName["W1"], cast.ByName["W2"])
+				if err != nil {
+					return &world{bad: err.Error()}
+				}
+				return &world{cw: cw, m: &c07ChainModel{deposit: map[string]int64{}, credit: map[string]int64{}, locked: map[string]bool{}, cached: map[string]bool{}}}
+			},
+			Events: func(interface{}) []string { return evs },
+			Apply: func(wi interface{}, ev string, judge bool, hist []string) {
+				w := wi.(*world)
+				if w.open {
+					return
+				}
+				if w.bad != "" {
+					if judge {
+						u.R.Infra = "simulated chain: " + w.bad
+					}
+					return
+				}
+				f := strings.Fields(ev)
+				m, cw := w.m, w.cw
+				switch f[0] {
+				case "dep":
+					id := cast.ByName[f[1]]
+					amt, _ := strconv.ParseInt(f[2], 10, 64)
+					if err := cw.Deposit(id, big.NewInt(amt)); err != nil {
+						w.bad = err.Error()
+						return
+					}
+					m.deposit[f[1]] += amt
+					m.contract += amt
+					if !(m.locked[f[1]] && !m.cached[f[1]]) {
+						if err := cw.AwaitCache(id); err != nil {
+							w.bad = fmt.Sprintf("after %v: %v", hist, err)
+							if judge {
+								u.Violate("chain/deposit-never-seen", fmt.Sprintf("history %v: %v", hist, err), vh.BFSReplay(name, hist))
+							}
+							return
+						}
+						m.cached[f[1]] = true
+					} else {
+						m.cached[f[1]] = true // the Balance event fills the cache (no contract read, no time-lock check)
+						time.Sleep(2 * time.Millisecond)
+					}
+					return
+				case "credit":
+					amt, _ := strconv.ParseInt(f[2], 10, 64)
+					cw.Ledger.AddAccountBalance(store.Account(cast.ByName[f[1]].Wallet), big.NewInt(amt))
+					m.credit[f[1]] += amt
+					return
+				case "lock":
+					if m.deposit[f[1]] == 0 {
+						return // the contract refuses forceSettle without a deposit
+					}
+					if err := cw.ForceSettle(cast.ByName[f[1]]); err != nil {
+						w.bad = err.Error()
+						return
+					}
+					m.locked[f[1]] = true
+					return
+				case "drain":
+					if m.contract == 0 {
+						return
+					}
+					if err := cw.Drain(big.NewInt(m.contract)); err != nil {
+						w.bad = err.Error()
+						return
+					}
+					m.contract = 0
+					return
+				case "restart":
+					if err := cw.Restart(); err != nil {
+						w.bad = err.Error()
+						return
+					}
+					m.cached = map[string]bool{}
+					return
+				}
+				// withdraw
+				name1 := f[1]
+				id := cast.ByName[name1]
+				_, _, fundsB := cw.OnChain(id)
+				err := cw.Withdraw(id)
+				depA, lockA, fundsA := cw.OnChain(id)
+				crA, _ := cw.Ledger.GetAccountBalance(store.Account(id.Wallet))
+				received := new(big.Int).Sub(fundsA, fundsB)
+				// model
+				total := m.deposit[name1] + m.credit[name1]
+				outcome := "paid"
+				switch {
+				case !m.cached[name1] && m.locked[name1]:
+					outcome = "refused: deposit time-locked"
+				case cfg.min != "off" && total < minI:
+					outcome = "refused: below minimum"
+				case total-feeI < 0:
+					outcome = "open" // a negative payout cannot be expressed on chain: not judged
+				case total-feeI > m.contract:
+					outcome = "refused: the contract cannot pay"
+				}
+				if !(!m.cached[name1] && m.locked[name1]) {
+					m.cached[name1] = true // the balance was read
+				}
+				if outcome == "open" {
+					w.open = true // leave this branch
+					if judge {
+						u.Count("negative_payout_not_judged", 1)
+					}
+					return
+				}
+				want := int64(0)
+				if outcome == "paid" {
+					want = total - feeI
+					m.contract -= want
+					m.deposit[name1], m.credit[name1], m.locked[name1] = 0, 0, false
+					if aerr := cw.AwaitCache(id); aerr != nil {
+						w.bad = fmt.Sprintf("after %v: %v", hist, aerr)
+						if judge {
+							u.Violate("chain/settlement-never-seen", fmt.Sprintf("history %v: %v", hist, aerr), vh.BFSReplay(name, hist))
+						}
+						return
+					}
+				}
+				if !judge {
+					return
+				}
+				u.R.Traces++
+				u.Observe(fmt.Sprintf("%s -> %s", ev, outcome))
+				desc := fmt.Sprintf("config %+v, history %v: expected %s; Withdraw returned %v, the wallet received %s on chain, contract deposit afterwards %s (time lock %s), ledger credit afterwards %s", cfg, hist, outcome, err, received, depA, lockA, crA.Credit.String())
+				switch {
+				case outcome == "paid" && err != nil:
+					u.Violate("chain/owed-but-not-paid", desc, vh.BFSReplay(name, hist))
+				case outcome != "paid" && err == nil:
+					u.Violate("chain/refusable-withdrawal-reported-success", desc, vh.BFSReplay(name, hist))
+				case received.Cmp(big.NewInt(want)) != 0:
+					u.Violate("chain/wrong-amount-on-chain", desc, vh.BFSReplay(name, hist))
+				case depA.Cmp(big.NewInt(m.deposit[name1])) != 0 || (lockA.Sign() != 0) != m.locked[name1]:
+					u.Violate("chain/contract-balance", desc+fmt.Sprintf(" (model: deposit %d, locked %v)", m.deposit[name1], m.locked[name1]), vh.BFSReplay(name, hist))
+				case crA.Credit.Cmp(big.NewInt(m.credit[name1])) != 0:
+					u.Violate("chain/ledger-credit", desc+fmt.Sprintf(" (model: credit %d)", m.credit[name1]), vh.BFSReplay(name, hist))
+				case cw.ContractFunds().Cmp(big.NewInt(m.contract)) != 0:
+					u.Violate("chain/contract-funds", desc+fmt.Sprintf(" (contract holds %s, model %d)", cw.ContractFunds(), m.contract), vh.BFSReplay(name, hist))
+				}
+			},
+			Key: func(wi interface{}) string {
+				w := wi.(*world)
+				if w.bad != "" {
+					return "bad:" + w.bad
+				}
+				if w.open {
+					return "open"
+				}
+				return fmt.Sprintf("%v|%v|%v|%v|%d", w.m.deposit, w.m.credit, w.m.locked, w.m.cached, w.m.contract)
+			},
+		})
+	}}
+}
+
 func init() {
 	vh.Register(&vh.Check{
 		ID: "C07", Level: "model_checking",
@@ -332,6 +524,13 @@ func init() {
 				}
 				us = append(us, c07Race(cfg, 2, bound), c07Race(cfg, 3, bound-1))
 				us = append(us, c07RaceOn(vh.Badger, cfg, 2, bound-1))
+				cd, cn := 4, 5
+				if tier == "thorough" {
+					cd, cn = 6, 16
+				}
+				for s := 0; s < cn; s++ {
+					us = append(us, c07Chain(cfg, cd, s, cn))
+				}
 				for _, d := range vh.Drivers {
 					us = append(us, c07RaceAccrual(d, cfg, bound-1))
 				}
